@@ -1,4 +1,103 @@
+import EE.Lemmas.ParserTotal
+import EE.Props.C05
+import EE.Props.C10
+import EE.Props.C04
 import EE.Model.Program
+/-! # C01 — parsing is total: every string gives Ok or Err, never a panic, abort or hang
+
+Outcomes of model functions: `ok`, `err`, `panic` (where the Rust would unwind: a byte slice off
+a character boundary, `usize` underflow, `unwrap` on `None`), `hang` (fuel exhausted),
+`deadlock`, `unmodelled` (a numeric literal in `rust_decimal`'s rounding zone: > 28 fractional
+digits — still a value or an `Err` in the library, the model just does not say which).
+`NoFault` = not panic, not hang, not deadlock.
+
+What a model cannot exhibit is the machine stack: "never aborts by stack exhaustion" is split
+into a *logic* half — the parser's nesting and the height of every tree it returns are bounded by
+`MAX_DEPTH` (theorems below) — and a *runtime* half — `MAX_DEPTH` frames fit the stack — which is
+measured by the deep-input stream (2 MiB thread, debug and release), not proved. -/
 namespace EE.Props.C01
-theorem placeholder : True := trivial
+open EE EE.Spec
+
+/-- **The tokenizer is total** (every input, every operator set). -/
+theorem tokenize_total (regs : Regs) (s : Text) : (tokenize regs s).NoFault := by
+  have := EE.Props.C10.tokenize_total regs s
+  exact ⟨this.1, this.2.2, this.2.1⟩
+
+/-- **The parser is total on every token list**: the fuel `4·n + 8` handed out by `parseTokens`
+is always enough, and no parser step can panic. -/
+theorem parseTokens_total (regs : Regs) (hp : RegsPos regs) (lim : Nat) (hl : 1 ≤ lim) (toks : List Tok) :
+    (parseTokens regs lim toks).NoFault := by
+  unfold parseTokens
+  refine NoFault.bind_of (parseStmts_total regs lim hl hp _ toks (by unfold parseFuel; omega)) fun ⟨xs, h⟩ _ => ?_
+  dsimp only
+  split
+  · exact Res.NoFault.ok _
+  · exact NoFault.bind_of (node_noFault _ _) fun _ _ => Res.NoFault.ok _
+
+/-- **`parse_expression` is total**: for every string, `Ok`, `Err` (or a literal in the library's
+rounding zone) — never a panic, never a hang. -/
+theorem parse_total (regs : Regs) (hp : RegsPos regs) (s : Text) : (parseProgram regs s).NoFault := by
+  unfold parseProgram
+  exact NoFault.bind_of (tokenize_total regs s) fun sts _ => parseTokens_total regs hp maxDepth (by decide) _
+
+theorem parse_total_builtin (s : Text) : (parseProgram Regs.builtin s).NoFault :=
+  parse_total _ EE.Props.C05.builtin_pos s
+
+/-- **Height bound**: every tree the parser returns has height at most `MAX_DEPTH` — so the
+recursion of `exec`, `expr`, `describe`, `clone`, `drop`, `==` over it is bounded by the same
+constant, whatever the input (a chain of 10⁶ operators is rejected, not built). -/
+theorem height_bound (regs : Regs) (hp : RegsPos regs) (lim : Nat) (hl : 1 ≤ lim) (toks : List Tok) (a : AST)
+    (h : parseTokens regs lim toks = .ok a) : a.height ≤ lim := by
+  unfold parseTokens at h
+  obtain ⟨⟨xs, hx⟩, hstm, h2⟩ := Res.bind_eq_ok h
+  dsimp only at h2
+  obtain ⟨_, hh, hle⟩ := parseStmts_sound regs lim hl hp _ toks xs hx hstm
+  cases xs with
+  | nil =>
+    simp only at h2
+    obtain ⟨hn, hnode, h3⟩ := Res.bind_eq_ok h2
+    cases h3
+    have := node_ok hnode
+    simp [AST.height, AST.heightList] at hh ⊢; omega
+  | cons x rest =>
+    cases rest with
+    | nil =>
+      simp only at h2; cases h2
+      simp [AST.heightList] at hh; omega
+    | cons y rest' =>
+      simp only at h2
+      obtain ⟨hn, hnode, h3⟩ := Res.bind_eq_ok h2
+      cases h3
+      have := node_ok hnode
+      simp only [AST.height]; omega
+
+theorem height_bound_program (regs : Regs) (hp : RegsPos regs) (s : Text) (a : AST) (h : parseProgram regs s = .ok a) :
+    a.height ≤ maxDepth := by
+  unfold parseProgram at h
+  obtain ⟨sts, _, h2⟩ := Res.bind_eq_ok h
+  exact height_bound regs hp maxDepth (by decide) _ a h2
+
+/-- The limit is the crate's `MAX_DEPTH` (regenerated from the source on every run) and it is 128:
+removing or raising it changes `EE.Gen.maxDepth` and this theorem no longer checks. -/
+theorem max_depth_is_128 : maxDepth = 128 := by decide
+
+/-- **Nesting bound**: the parser refuses to enter an expression nested deeper than the limit
+(`parse_expression`, the operand of a prefix operator and the continued right operand all count
+their nesting in `d`), so its recursion depth is bounded by the limit as well. -/
+theorem nesting_bound (regs : Regs) (lim fuel d : Nat) (toks : List Tok) (h : lim < d + 1) :
+    parseExpression regs lim (fuel + 1) d toks = .err .nestingTooDeep := by
+  unfold parseExpression
+  simp [h]
+
+/-- **Rendering is total**: `expr()` and `describe()` are total functions into text — the model
+has no failure outcome for them at all (their index arithmetic `len() - 1` is guarded by the loop
+bound in the code; in the model it is `joinWith`). -/
+theorem render_total (regs : Regs) (dreg : DReg) (dinv : DInv) (t : AST) :
+    ∃ s d : Text, expr regs t = s ∧ describe dreg dinv t = d := ⟨_, _, rfl, rfl⟩
+
+/-- **`execute` is total** for handlers that themselves return (built-ins always do: C04). -/
+theorem execute_total {σ : Type} (userInv : Nat → List Value → EngineM σ Value)
+    (hu : ∀ id args, Keeps World.Clean (fun f => f = Fault.none) (userInv id args)) (t : AST) (w : World σ) (hw : w.Clean) :
+    (exec (stdInv userInv) t w).1.fault = .none := (EE.Props.C04.exec_noFault userInv hu t w hw).1
+
 end EE.Props.C01
